@@ -4,6 +4,7 @@ CONSTANTS
   OneLen = 6
   MaxLen = 4
   CompLen = 3
+  NBig = 8
   BigN = 40
   BigM = 40
 INVARIANTS KernelEq AlgebraLaws CompKernel CompLaws Emit
